@@ -98,87 +98,99 @@ Emit == /\ ~done /\ done' = TRUE /\ UNCHANGED <<i, j>>
 Next == Emit
 
 (* ------------------------------- laws: Z[sqrt2] ------------------------ *)
+\* (intermediate results are bound as elements of singleton sets so that TLC evaluates each of them once)
 S2Unary(x) ==
-  /\ S2Add(x, S2Zero) = x /\ S2Mul(x, S2One) = x /\ S2Mul(x, S2Zero) = S2Zero /\ S2Add(x, S2Neg(x)) = S2Zero
-  /\ S2Adj2(S2Adj2(x)) = x /\ S2Conj(x) = x
-  /\ S2Mul(x, S2Adj2(x)) = S2Int(S2Norm(x)) /\ S2Norm(x) = x[1] * x[1] - 2 * (x[2] * x[2])
-  /\ (S2Norm(x) = 0 <=> x = S2Zero)
-  /\ OmToS2(S2ToOm(x)) = x /\ OmIsReal(S2ToOm(x)) /\ OmConj(S2ToOm(x)) = S2ToOm(x)
-  /\ OmAdj2(S2ToOm(x)) = S2ToOm(S2Adj2(x))
-  /\ S2Pow(x, 3) = S2Mul(x, S2Mul(x, x))
+  /\ S2AddV(x, S2Zero) = x /\ S2MulV(x, S2One) = x /\ S2MulV(x, S2Zero) = S2Zero /\ S2AddV(x, S2NegV(x)) = S2Zero
+  /\ S2Adj2V(S2Adj2V(x)) = x /\ S2Conj(x) = x
+  /\ S2MulV(x, S2Adj2V(x)) = S2Int(S2NormV(x)) /\ S2NormV(x) = x[1] * x[1] - 2 * (x[2] * x[2])
+  /\ (S2NormV(x) = 0 <=> x = S2Zero)
+  /\ \A e \in {S2ToOmV(x)} : /\ OmToS2V(e) = x /\ OmIsRealV(e) /\ OmConjV(e) = e
+                              /\ OmAdj2V(e) = S2ToOmV(S2Adj2V(x))
+  /\ S2Pow(x, 3) = S2Mul(x, S2MulV(x, x)) /\ S2Pow(x, 0) = S2One /\ S2Pow(x, 1) = x
   /\ \A n \in 1..Len(PosInts) : LET d == PosInts[n]  q == <<x[1] \div d, x[2] \div d>>  r == <<x[1] % d, x[2] % d>> IN
-        S2Add(S2Scale(d, q), r) = x /\ r[1] \in 0..d - 1 /\ r[2] \in 0..d - 1
+        S2AddV(S2ScaleV(d, q), r) = x /\ r[1] \in 0..d - 1 /\ r[2] \in 0..d - 1
 S2Pair(x, y) ==
-  /\ S2Add(x, y) = S2Add(y, x) /\ S2Mul(x, y) = S2Mul(y, x)
-  /\ S2Sub(x, y) = S2Add(x, S2Neg(y)) /\ S2Add(S2Sub(x, y), y) = x
-  /\ S2Adj2(S2Mul(x, y)) = S2Mul(S2Adj2(x), S2Adj2(y)) /\ S2Adj2(S2Add(x, y)) = S2Add(S2Adj2(x), S2Adj2(y))
-  /\ S2Norm(S2Mul(x, y)) = S2Norm(x) * S2Norm(y)
-  /\ S2ToOm(S2Mul(x, y)) = OmMul(S2ToOm(x), S2ToOm(y)) /\ S2ToOm(S2Add(x, y)) = OmAdd(S2ToOm(x), S2ToOm(y))
-  /\ (S2Mul(x, y) = S2Zero => (x = S2Zero \/ y = S2Zero))
-  /\ y # S2Zero => /\ (\E q \in S2Set(3 * B2) : S2Mul(q, y) = x) => S2Divides(y, x)
-                   /\ S2Divides(y, x) => S2Mul(S2Quot(x, y), y) = x
+  \A xy \in {S2MulV(x, y)}, s \in {S2AddV(x, y)}, ex \in {S2ToOmV(x)}, ey \in {S2ToOmV(y)} :
+  /\ s = S2AddV(y, x) /\ xy = S2MulV(y, x)
+  /\ S2SubV(x, y) = S2AddV(x, S2NegV(y)) /\ S2AddV(S2SubV(x, y), y) = x
+  /\ S2Adj2V(xy) = S2MulV(S2Adj2V(x), S2Adj2V(y)) /\ S2Adj2V(s) = S2AddV(S2Adj2V(x), S2Adj2V(y))
+  /\ S2NormV(xy) = S2NormV(x) * S2NormV(y)
+  /\ S2ToOmV(xy) = OmMulV(ex, ey) /\ S2ToOmV(s) = OmAddV(ex, ey)
+  /\ (xy = S2Zero => (x = S2Zero \/ y = S2Zero))
+  /\ y # S2Zero => /\ (\E q \in S2Set(3 * B2) : S2MulV(q, y) = x) => S2DividesV(y, x)
+                   /\ S2DividesV(y, x) => S2MulV(S2QuotV(x, y), y) = x
+                   /\ S2DividesV(y, xy) /\ S2QuotV(xy, y) = x
 S2Triple(x, y, z) ==
-  /\ S2Add(S2Add(x, y), z) = S2Add(x, S2Add(y, z)) /\ S2Mul(S2Mul(x, y), z) = S2Mul(x, S2Mul(y, z))
-  /\ S2Mul(x, S2Add(y, z)) = S2Add(S2Mul(x, y), S2Mul(x, z))
-  /\ S2Mul(S2Add(x, y), z) = S2Add(S2Mul(x, z), S2Mul(y, z))
-LawS2 == (MODE = "s2" /\ done) => LET x == S2Seq[i] IN S2Unary(x) /\ \A y \in S2Set(B2) : S2Pair(x, y)
-LawS2T == (MODE = "s2t" /\ done) => \A z \in S2Set(B2) : S2Triple(S2Seq[i], S2Seq[j], z)
+  \A xy \in {S2MulV(x, y)}, yz \in {S2MulV(y, z)}, xz \in {S2MulV(x, z)} :
+  /\ S2AddV(S2AddV(x, y), z) = S2AddV(x, S2AddV(y, z)) /\ S2MulV(xy, z) = S2MulV(x, yz)
+  /\ S2MulV(x, S2AddV(y, z)) = S2AddV(xy, xz)
+  /\ S2MulV(S2AddV(x, y), z) = S2AddV(xz, yz)
+LawS2 == (MODE = "s2" /\ done) => \A x \in {S2Seq[i]} : S2Unary(x) /\ \A y \in S2Set(B2) : S2Pair(x, y)
+LawS2T == (MODE = "s2t" /\ done) => \A x \in {S2Seq[i]}, y \in {S2Seq[j]} : \A z \in S2Set(B2) : S2Triple(x, y, z)
 
 (* ------------------------------- laws: Z[omega] ------------------------ *)
+OmConsts ==
+  /\ OmMulV(OmW, OmMulV(OmW, OmMulV(OmW, OmW))) = OmNegV(OmOne) /\ OmMulV(OmRoot2, OmRoot2) = OmInt(2)
+  /\ OmMulV(OmI, OmI) = OmNegV(OmOne) /\ OmConjV(OmW) = OmNegV(OmMulV(OmW, OmMulV(OmW, OmW)))
+  /\ OmAdj2V(OmRoot2) = OmNegV(OmRoot2) /\ OmMulV(OmW, OmW) = OmI /\ OmSubV(OmW, OmMulV(OmW, OmI)) = OmRoot2
 OmUnary(x) ==
-  /\ OmAdd(x, OmZero) = x /\ OmMul(x, OmOne) = x /\ OmMul(OmOne, x) = x /\ OmMul(x, OmZero) = OmZero
-  /\ OmAdd(x, OmNeg(x)) = OmZero /\ OmConj(OmConj(x)) = x /\ OmAdj2(OmAdj2(x)) = x
-  /\ OmConj(OmAdj2(x)) = OmAdj2(OmConj(x))
-  /\ OmIsReal(OmNormEl(x)) /\ OmConj(OmNormEl(x)) = OmNormEl(x)
-  /\ OmAbs(x) >= 0 /\ (OmAbs(x) = 0 <=> x = OmZero)
-  /\ OmMul(OmNormEl(x), OmAdj2(OmNormEl(x))) = OmInt(OmAbs(x))
+  \A nx \in {OmNormElV(x)}, r2 \in {OmMulV(x, OmRoot2)} :
+  /\ OmAddV(x, OmZero) = x /\ OmMulV(x, OmOne) = x /\ OmMulV(OmOne, x) = x /\ OmMulV(x, OmZero) = OmZero
+  /\ OmAddV(x, OmNegV(x)) = OmZero /\ OmConjV(OmConjV(x)) = x /\ OmAdj2V(OmAdj2V(x)) = x
+  /\ OmConjV(OmAdj2V(x)) = OmAdj2V(OmConjV(x))
+  /\ OmIsRealV(nx) /\ OmConjV(nx) = nx
+  /\ \A ab \in {OmAbs(x)} : ab >= 0 /\ (ab = 0 <=> x = OmZero) /\ OmMulV(nx, OmAdj2V(nx)) = OmInt(ab)
   /\ LET s == x[1] * x[1] + x[2] * x[2] + x[3] * x[3] + x[4] * x[4]
-         t == x[1] * x[2] + x[2] * x[3] + x[3] * x[4] - x[4] * x[1] IN OmToS2(OmNormEl(x)) = <<s, t>>
-  /\ OmIsReal(x) => S2ToOm(OmToS2(x)) = x
-  /\ OmIsReal(x) <=> OmConj(x) = x
-  /\ OmMul(OmW, OmMul(OmW, OmMul(OmW, OmW))) = OmNeg(OmOne) /\ OmMul(OmRoot2, OmRoot2) = OmInt(2)
-  /\ OmMul(OmI, OmI) = OmNeg(OmOne) /\ OmConj(OmW) = OmNeg(OmMul(OmW, OmMul(OmW, OmW))) /\ OmAdj2(OmRoot2) = OmNeg(OmRoot2)
+         t == x[1] * x[2] + x[2] * x[3] + x[3] * x[4] - x[4] * x[1] IN OmToS2V(nx) = <<s, t>>
+  /\ OmIsRealV(x) => S2ToOmV(OmToS2V(x)) = x
+  /\ OmIsRealV(x) <=> OmConjV(x) = x
   /\ OmRoot2Divides(x) => OmMulRoot2(OmDivRoot2(x)) = x
-  /\ OmRoot2Divides(OmMulRoot2(x)) /\ OmDivRoot2(OmMulRoot2(x)) = x
+  /\ SeqAllEvenV(OmMulV(r2, OmRoot2)) /\ OmHalveV(OmMulV(r2, OmRoot2)) = x
+  /\ OmPow(x, 3) = OmMulV(x, OmMulV(x, x)) /\ OmPow(x, 0) = OmOne /\ OmPow(x, 1) = x
+  /\ OmConjV(x) = ToCyclo(C!Conj(ToCyclo(x)))
 OmPair(x, y) ==
-  /\ OmAdd(x, y) = OmAdd(y, x) /\ OmMul(x, y) = OmMul(y, x)
-  /\ OmSub(x, y) = OmAdd(x, OmNeg(y)) /\ OmAdd(OmSub(x, y), y) = x
-  /\ OmConj(OmMul(x, y)) = OmMul(OmConj(x), OmConj(y)) /\ OmConj(OmAdd(x, y)) = OmAdd(OmConj(x), OmConj(y))
-  /\ OmAdj2(OmMul(x, y)) = OmMul(OmAdj2(x), OmAdj2(y)) /\ OmAdj2(OmAdd(x, y)) = OmAdd(OmAdj2(x), OmAdj2(y))
-  /\ OmNormEl(OmMul(x, y)) = OmMul(OmNormEl(x), OmNormEl(y))
-  /\ OmAbs(OmMul(x, y)) = OmAbs(x) * OmAbs(y)
-  /\ (OmMul(x, y) = OmZero => (x = OmZero \/ y = OmZero))
-  /\ OmMul(x, y) = ToCyclo(C!MulG(ToCyclo(x), ToCyclo(y)))       \* second, independent implementation
-  /\ OmMul(x, y) = ToCyclo(C!Mul(ToCyclo(x), ToCyclo(y)))
-  /\ OmConj(x) = ToCyclo(C!Conj(ToCyclo(x)))
-  /\ (y # OmZero /\ OmDivides(y, OmMul(x, y)))
+  \A xy \in {OmMulV(x, y)}, s \in {OmAddV(x, y)}, nx \in {OmNormElV(x)}, ny \in {OmNormElV(y)} :
+  /\ s = OmAddV(y, x) /\ xy = OmMulV(y, x)
+  /\ OmSubV(x, y) = OmAddV(x, OmNegV(y)) /\ OmAddV(OmSubV(x, y), y) = x
+  /\ OmConjV(xy) = OmMulV(OmConjV(x), OmConjV(y)) /\ OmConjV(s) = OmAddV(OmConjV(x), OmConjV(y))
+  /\ OmAdj2V(xy) = OmMulV(OmAdj2V(x), OmAdj2V(y)) /\ OmAdj2V(s) = OmAddV(OmAdj2V(x), OmAdj2V(y))
+  /\ OmNormElV(xy) = OmMulV(nx, ny)
+  /\ S2NormV(OmToS2V(OmNormElV(xy))) = S2NormV(OmToS2V(nx)) * S2NormV(OmToS2V(ny))
+  /\ (xy = OmZero => (x = OmZero \/ y = OmZero))
+  /\ \A cx \in {ToCyclo(x)}, cy \in {ToCyclo(y)} :                \* second, independent implementation
+        xy = ToCyclo(C!MulG(cx, cy)) /\ xy = ToCyclo(C!Mul(cx, cy))
+  /\ OmDividesV(y, xy)
 OmTriple(x, y, z) ==
-  /\ OmAdd(OmAdd(x, y), z) = OmAdd(x, OmAdd(y, z)) /\ OmMul(OmMul(x, y), z) = OmMul(x, OmMul(y, z))
-  /\ OmMul(x, OmAdd(y, z)) = OmAdd(OmMul(x, y), OmMul(x, z))
-  /\ OmMul(OmAdd(x, y), z) = OmAdd(OmMul(x, z), OmMul(y, z))
-LawOm == (MODE = "om" /\ done) => LET x == OmSeq[i] IN OmUnary(x) /\ \A y \in OmSet(BO) : (y = OmZero \/ OmPair(x, y))
-LawOmT == (MODE = "omt" /\ done) => \A z \in OmSet(BT) : OmTriple(OmTSeq[i], OmTSeq[j], z)
+  \A xy \in {OmMulV(x, y)}, yz \in {OmMulV(y, z)}, xz \in {OmMulV(x, z)} :
+  /\ OmAddV(OmAddV(x, y), z) = OmAddV(x, OmAddV(y, z)) /\ OmMulV(xy, z) = OmMulV(x, yz)
+  /\ OmMulV(x, OmAddV(y, z)) = OmAddV(xy, xz)
+  /\ OmMulV(OmAddV(x, y), z) = OmAddV(xz, yz)
+\* pairs are checked once per unordered pair (every conjunct of OmPair is symmetric or checks both orders)
+LawOm == (MODE = "om" /\ done) => \A x \in {OmSeq[i]} :
+            /\ OmUnary(x) /\ (i = 1 => OmConsts)
+            /\ \A n \in i..NOm : \A y \in {OmSeq[n]} : (y = OmZero \/ x = OmZero \/ OmPair(x, y))
+LawOmT == (MODE = "omt" /\ done) => \A x \in {OmTSeq[i]}, y \in {OmTSeq[j]} : \A z \in OmSet(BT) : OmTriple(x, y, z)
 
 (* ------------------------------- laws: matrices ------------------------ *)
 MatUnary(n) ==
-  LET A == Mats[n]  R == SO3s[n] IN
-  /\ M2IsUnitary(A) /\ M2ValEq(M2Canon(A), A) /\ ~M2Reducible(M2Canon(A)) /\ M2Canon(A).k >= 0
-  /\ M2ValEq(M2Mul(A, M2Id), A) /\ M2ValEq(M2Mul(M2Id, A), A) /\ M2IsZero(M2Add(A, M2Neg(A)))
-  /\ \A a \in 1..3, b \in 1..3 : SO3EntReal(A, a, b)
-  /\ M3ValEq(M3Mul(R, M3Transpose(R)), M3Id) /\ M3ValEq(M3Canon(R), R)
-  /\ M2ValEq(M2Conj(M2Conj(A)), A) /\ M2ValEq(M2Adj2(M2Adj2(A)), A)
-  /\ M2ValEq(M2Mult2k(A, 1), M2ScaleOm(A, OmInt(2))) /\ M2ValEq(M2Add(A, A), M2ScaleOm(A, OmInt(2)))
+  \A A \in {Mats[n]}, R \in {SO3s[n]} : \A cA \in {M2CanonV(A)} :
+  /\ M2IsUnitary(A) /\ M2ValEqV(cA, A) /\ ~M2ReducibleV(cA) /\ cA.k >= 0
+  /\ M2ValEq(M2MulV(A, M2Id), A) /\ M2ValEq(M2MulV(M2Id, A), A) /\ M2IsZero(M2AddV(A, M2NegV(A)))
+  /\ SO3AllRealV(A)
+  /\ M3ValEq(M3MulV(R, M3TransposeV(R)), M3Id) /\ M3ValEq(M3CanonV(R), R)
+  /\ M2ValEq(M2ConjV(M2ConjV(A)), A) /\ M2ValEq(M2Adj2V(M2Adj2V(A)), A)
+  /\ M2ValEq(M2Mult2kV(A, 1), M2ScaleOmV(A, OmInt(2))) /\ M2ValEq(M2AddV(A, A), M2ScaleOmV(A, OmInt(2)))
 MatPair(n, m) ==
-  LET A == Mats[n]  B == Mats[m] IN
-  /\ M3ValEq(SO3Ref(M2Mul(A, B)), M3Mul(SO3s[n], SO3s[m]))                  \* SO(3) is a homomorphism
-  /\ M2ValEq(M2Conj(M2Mul(A, B)), M2Mul(M2Conj(A), M2Conj(B))) /\ M2ValEq(M2Conj(M2Add(A, B)), M2Add(M2Conj(A), M2Conj(B)))
-  /\ M2ValEq(M2Adj2(M2Mul(A, B)), M2Mul(M2Adj2(A), M2Adj2(B))) /\ M2ValEq(M2Adj2(M2Add(A, B)), M2Add(M2Adj2(A), M2Adj2(B)))
-  /\ M2ValEq(M2Dagger(M2Mul(A, B)), M2Mul(M2Dagger(B), M2Dagger(A)))
-  /\ M2ValEq(M2Add(A, B), M2Add(B, A))
-  /\ \A D \in {M2H, M2T, M2Mul(M2T, M2H)} :
-        /\ M2ValEq(M2Mul(M2Mul(A, B), D), M2Mul(A, M2Mul(B, D)))
-        /\ M2ValEq(M2Mul(A, M2Add(B, D)), M2Add(M2Mul(A, B), M2Mul(A, D)))
-        /\ M2ValEq(M2Mul(M2Add(A, B), D), M2Add(M2Mul(A, D), M2Mul(B, D)))
-        /\ M2ValEq(M2Add(M2Add(A, B), D), M2Add(A, M2Add(B, D)))
+  \A A \in {Mats[n]}, B \in {Mats[m]} : \A AB \in {M2MulV(A, B)}, S \in {M2AddV(A, B)} :
+  /\ M3ValEq(SO3RefV(AB), M3MulV(SO3s[n], SO3s[m]))                         \* SO(3) is a homomorphism
+  /\ M2ValEq(M2ConjV(AB), M2MulV(M2ConjV(A), M2ConjV(B))) /\ M2ValEq(M2ConjV(S), M2AddV(M2ConjV(A), M2ConjV(B)))
+  /\ M2ValEq(M2Adj2V(AB), M2MulV(M2Adj2V(A), M2Adj2V(B))) /\ M2ValEq(M2Adj2V(S), M2AddV(M2Adj2V(A), M2Adj2V(B)))
+  /\ M2ValEq(M2DaggerV(AB), M2MulV(M2DaggerV(B), M2DaggerV(A)))
+  /\ M2ValEq(S, M2AddV(B, A))
+  /\ \A D \in {M2H, M2T, M2MulV(M2T, M2H)} : \A BD \in {M2MulV(B, D)}, AD \in {M2MulV(A, D)} :
+        /\ M2ValEq(M2MulV(AB, D), M2MulV(A, BD))
+        /\ M2ValEq(M2MulV(A, M2AddV(B, D)), M2AddV(AB, AD))
+        /\ M2ValEq(M2MulV(S, D), M2AddV(AD, BD))
+        /\ M2ValEq(M2AddV(S, D), M2AddV(A, M2AddV(B, D)))
 LawMat == (MODE = "mat" /\ done) => MatUnary(i) /\ \A m \in 1..NW : MatPair(i, m)
 =============================================================================
